@@ -1,5 +1,7 @@
 mod common;
 mod cursor;
+mod store;
+mod setsum_replay;
 
 fn main() {
     let args: Vec<String> = std::env::args().collect();
@@ -8,6 +10,8 @@ fn main() {
     }
     match args[1].as_str() {
         "cursor-replay" => cursor::main(&args[2..]),
+        "store-run" => store::main(&args[2..]),
+        "setsum-replay" => setsum_replay::main(&args[2..]),
         x => common::tool_error(&format!("unknown subcommand {x}")),
     }
 }
